@@ -58,6 +58,11 @@ def gen_cases(tier, seed):
             for rep in range(1 if tier == "quick" else 40):
                 cases.append({"cfg": cfg, "policy": pol, "mode": worlds[(k + pi + rep) % 3] if rep else w,
                               "world": "f64" if w == "f64" else "f32", "seed": env.subseed(seed, "c11", cfg, pol, rep), "cost": 1})
+    # reflection vectors of very small norm in single precision, for every class built on a Householder sequence (a reflection
+    # depends on the direction of its vector only; anything added to the squared norm "for safety" shows here)
+    for ci, cfg in enumerate(g):
+        if cfg["cls"] in ("householder", "qr", "svd") and (tier != "quick" or ci % 3 == 0):
+            cases.append({"cfg": cfg, "policy": "tiny_q", "mode": "f32", "world": "f32", "seed": env.subseed(seed, "c11tinyq", ci), "cost": 1})
     # wide layers whose determinant leaves the floating range while its logarithm does not (all worlds)
     for f in (96, 128):
         for cls, extra in (("naive", {"orth": True}), ("lu", {"idinit": True}), ("conv", {"idinit": True}),
